@@ -8,7 +8,7 @@ import vlib
 from vlib import tlc, make_cfg, vh, workdir, write_ndjson, read_ndjson, log
 
 NAMES = ["a", "b"]
-INVS = ["TypeOK", "RefreshSeesPublished", "MonotonePublisherServes", "RefusalMeansRollback", "CloneFaithful",
+INVS = ["TypeOK", "ExpiredNeverTrusted", "ToolsRefuseExpired", "RefreshSeesPublished", "MonotonePublisherServes", "RefusalMeansRollback", "CloneFaithful",
         "CloneNeverWrong", "DownloadFaithful", "PublishedComplete"]
 
 
@@ -21,9 +21,15 @@ def _cfg(w, name, overrides, invariants, props=True):
 
 
 def model_check(w, tag, steps):
-    g = tlc("MC_Lifecycle", _cfg(w, "mc.cfg", {"MaxSteps": steps}, INVS), tag + "-mc", workers=4, timeout=1500, coverage=True)
+    """steps commands with expirations and --allow-expired-repo; one more command without them (state space)"""
+    g = tlc("MC_Lifecycle", _cfg(w, "mc.cfg", {"MaxSteps": steps}, INVS), tag + "-mc", workers=6, timeout=1700, coverage=True)
     if not g.ok:
         raise vlib.ToolError("Lifecycle.tla violates its properties:\n" + g.violation[-2000:])
+    g2 = tlc("MC_Lifecycle", _cfg(w, "mc2.cfg", {"MaxSteps": steps + 1, "Expiry": "FALSE"}, INVS), tag + "-mc2", workers=6, timeout=1700)
+    if not g2.ok:
+        raise vlib.ToolError("Lifecycle.tla (without expirations) violates its properties:\n" + g2.violation[-2000:])
+    g.distinct += g2.distinct
+    g.generated += g2.generated
     return g
 
 
@@ -64,6 +70,9 @@ def compare(m, o, act):
         ex = op["extra"]
         if not (ex["ts"] == ex["sn"] == ex["tg"] == mp["extra"]):
             d.append(f"pub.extra model {mp['extra']} observed {ex}")
+        oexp = {r: op["exp"][r].startswith("2001") for r in ("ts", "sn", "tg")}
+        if oexp != mp["exp"]:
+            d.append(f"pub.exp model {mp['exp']} observed {op['exp']}")
         if max(op["roots"] or [0]) != mp["root"]:
             d.append(f"pub.root model {mp['root']} observed {op['roots']}")
     if m["cli"] != o["cli"]:
@@ -95,10 +104,21 @@ def compare(m, o, act):
 
 def predicates(prev, s, names):
     """the properties evaluated on what was observed; returns {pid: [what]}"""
-    out = {"C10": [], "C17": [], "C19": []}
+    out = {"C10": [], "C17": [], "C19": [], "C04": []}
     cmd, o = s["cmd"], s["obs"]
     act = cmd["act"]
     op = o["pub"]
+    if act == "refresh" and op.get("on"):
+        # C04 on what was observed: the enforcing client with its datastore against the dates in the written files
+        oexp = {r: op["exp"][r].startswith("2001") for r in ("ts", "sn", "tg")}
+        names_ = {"ts": "timestamp", "sn": "snapshot", "tg": "targets"}
+        if s["ok"] and any(oexp.values()):
+            out["C04"].append(f"an update cycle with enforcement on succeeded although {[names_[r] for r in oexp if oexp[r]]} expired in 2001")
+        if not s["ok"] and s["out"].startswith("Expired:"):
+            role = s["out"].split(":", 1)[1]
+            short = {v: k for k, v in names_.items()}.get(role)
+            if short is None or not oexp[short]:
+                out["C04"].append(f"the cycle failed with {s['out']} although that role's metadata expires in {op['exp']}")
     if act in ("create", "update", "transfer") and s["ok"]:
         # C10: what the editor reports as signed and written loads and shows what was put in
         if op.get("problems"):
@@ -112,7 +132,10 @@ def predicates(prev, s, names):
                 out["C10"].append(f"`{act}` was told versions {want}, the client sees {c['ver']}")
             if c["read"] != op["tset"]:
                 out["C10"].append(f"after `{act}` the listed targets {op['tset']} read back as {c['read']}")
-            told = {"ts": "2090-01-01", "sn": "2090-01-02", "tg": "2090-01-03"}
+            ce = cmd.get("exp", {})
+            told = {r: f"{2001 if ce.get(r) else 2090}-01-0{d}" for r, d in (("ts", 1), ("sn", 2), ("tg", 3))}
+            if bool(c.get("expired")) != any(ce.get(r) for r in ("ts", "sn", "tg")):
+                out["C10"].append(f"`{act}` was told expirations {told}; an enforcing client says {c.get('expired')}")
             if op.get("exp") != told:
                 out["C10"].append(f"`{act}` was told expirations {told}, the written metadata has {op.get('exp')}")
             if act == "create" and sorted(x for x, v in op["tset"].items() if v) != sorted(cmd["targets"]):
@@ -191,6 +214,8 @@ def judge(v, pid, rows, stats):
                 stats["nontrivial"] += 1
             elif pid == "C10":
                 stats["nontrivial"] += 1
+            elif pid == "C04" and any(s["cmd"]["act"] == "refresh" and p["before"] for s, p in zip(r["steps"], r["in"]["steps"])):
+                stats["nontrivial"] += 1
 
 
 def slim(r, upto):
@@ -199,14 +224,14 @@ def slim(r, upto):
             "lifecycle": True}
 
 
-def run_into(v, pid, tier, seed):
+def run_into(v, pid, tier, seed, scale=1.0):
     """model-check, generate, replay, judge; returns a coverage dict"""
     tag = f"life-{pid.lower()}"
     w = workdir(tag)
     tuftool = vlib.build_tuftool()
-    g = model_check(w, tag, 3 if tier == "quick" else 4)
+    g = model_check(w, tag, 2 if tier == "quick" else 3)
     num, steps = (160, 6) if tier == "quick" else (600, 7)
-    cases = generate(w, tag, seed, num, steps)
+    cases = generate(w, tag, seed, int(num * scale), steps)
     cp, out = os.path.join(w, "cases.ndjson"), os.path.join(w, "out.ndjson")
     write_ndjson(cp, cases)
     vh(["lifecycle", "--cases", cp, "--out", out, "--tuftool", tuftool], timeout=6000)
